@@ -57,10 +57,10 @@ var Props = map[string]PropSpec{
 }
 
 var chainRealStub = map[string]string{
-	"app, baseapp, x/* keepers+handlers+ante, codec, crypto, store/*":      "real",
+	"app, baseapp, x/* keepers+handlers+ante, codec, crypto, store/*":            "real",
 	"types.TransactionIndexer, Tendermint BlockStore, block/header/commit types": "real library code over simdb, fed by the driver",
-	"Tendermint consensus, mempool, p2p, handshake, evidence pool, RPC server": "stub: seeded block driver + TmStub (client.Client) following the pokt fork's call order",
-	"LevelDB":                   "stub: simdb",
+	"Tendermint consensus, mempool, p2p, handshake, evidence pool, RPC server":   "stub: seeded block driver + TmStub (client.Client) following the pokt fork's call order",
+	"LevelDB":                    "stub: simdb",
 	"hosted chain HTTP endpoint": "stub: in-process RoundTripper",
 	"wall clock":                 "real outside synctest replicas; virtual inside (C12)",
 }
@@ -99,5 +99,12 @@ func init() {
 	Props["C37"] = chainProp(45, 900, base+"genesis leaves a random subset of features unscheduled; feature-upgrade transactions schedule them (and restate scheduled ones) while the chain runs, with clean restarts in between; the stored list, the node's activation schedule and the activation predicates at h-1,h,h+1 are compared with the model schedule after every upgrade and every restart; distinct case = (features named, accepted)")
 	Props["C42"] = chainProp(45, 900, base+"every block is indexed through AddBatch exactly as the fork does; a searcher then sweeps hash lookups, height, sender, sender+height and recipient searches in both directions with page sizes {1,2,3,30} through PocketCoreApp.Query*Txs -> stubbed TxSearch -> real indexer, at the end of the run and after every restart; distinct case = (indexed txs, signers, recipients)")
 	Props["C43"] = chainProp(60, 900, base+"at the end of the run the state is exported (ExportAppState at the last height) and imported by a child process (InitChain with the export); accounts and balances, supply, nodes, applications, all parameters and pending claims are compared as typed values; distinct case = shape of the exported state (unstaking nodes/apps, jailed, claims)")
+	relay := "a gateway actor dispatches and sends 1-140 signed relays per step for staked applications to the servicers this node runs (hosted chain = in-process RoundTripper); the node's own SendClaimTx/SendProofTx are called at schedule-chosen points and their transactions join the next block; "
+	Props["C29"] = chainProp(60, 900, base+relay+"before every claim each stored evidence is swept: every leaf index must yield a proof that verifies against the root built from the same set with ceil(log2(n)) levels, and the node's own proof transaction must never be rejected with the merkle/level-count codes; set sizes are whatever the traffic produced (sampling); distinct case = evidence sizes swept")
+	Props["C30"] = chainProp(60, 900, base+relay+"a cheating servicer alters one field of its pending proof (leaf, index, sibling hash, sibling range, target range, level count) and re-signs it, or counts one relay twice before claiming; distinct case = (mutation) of delivered forged proofs")
+	Props["C31"] = chainProp(60, 900, base+relay+"claims arrive at every height of the acceptance window because the auto-claim pass is a scheduled step; for every accepted claim the block whose hash selects the leaf must have been proposed strictly after the claim's block; every rewarded proof's leaf index is recomputed from the driver's own block log (SHA3-256 of {hash of the block before the proof height, session header hash}, first 8 bytes mod claimed count) and must match and lie inside the claimed count; distinct case = claim height relative to the proof height")
+	Props["C32"] = chainProp(60, 900, base+relay+"claim life-cycle table per (servicer, session header): admission conditions in the session-start and current state, reward only for a live claim with a verifying proof and at most once, overwritten and expired claims; distinct case = claim/proof outcomes")
+	Props["C33"] = chainProp(60, 900, base+relay+"every dispatch response is checked: count, distinctness, staked-for-chain at session start, not jailed at both reference points, identical answer for identical inputs (also after restarts), insufficient-nodes only if fewer eligible nodes exist; distinct case = (session nodes, population)")
+	Props["C35"] = chainProp(60, 900, base+relay+"one relay per step may have exactly one aspect altered (token signature, client signature, client key, request hash, servicer key, chain, session height, meta block height, unstaked application); it must be refused and leave the evidence unchanged, the unaltered relays around it must be answered, signed and recorded; distinct case = mutation kinds and refusal reasons")
 	Props["C36"] = chainProp(45, 900, base+"parameter changes, upgrades and DAO transfers/burns by the owner and by other keys, amounts around the DAO balance; distinct case = (tx kind, encoding, outcome)")
 }
